@@ -315,6 +315,7 @@ static void begin(void)
     conn->intf.conn = conn;
     conn->conn_handler = conn_cb;
     conn->open_handler = auth_handle_open_raw;
+    conn->is_raw = 1; /* as xmpp_connect_raw would: every stream start reports CONNECT */
     conn->state = XMPP_STATE_CONNECTED;
     conn->sock = 5;
     conn->connect_timeout = 0xffffffffu;
